@@ -6,6 +6,7 @@
 """
 
 from abc import ABC, abstractmethod
+import numbers
 
 import multiprocess
 
@@ -177,7 +178,7 @@ def convert_to_spring(thing, smat, ssolver):
       smat          structural material
       ssolver       structural solver
     """
-    if isinstance(thing, (float, int)):
+    if isinstance(thing, numbers.Real):
         return spring.LinearSpring(thing)
     elif isinstance(thing, str):
         if thing not in ["disconnect", "rigid"]:
